@@ -146,6 +146,56 @@ func registerExtField2(pkg, structField, kind string) {
 	extFields2[modPath+"/"+pkg+"."+structField] = kind
 }
 
+// registerExtMethod2: a METHOD ("Type.method", Type a struct or an interface of a translated package)
+// that stands for the environment:
+//
+//	"read": x.m() answers the record field Type_m_ret (the same answer at every call within one
+//	        translated call);
+//	"call": x.m(args) appends Type_call_m args to the object's ordered call log Type_calls and
+//	        answers Type_m_ret. Parameters of type context.Context are dropped.
+//
+// An interface with registered methods is a generated Record holding just these fields (its
+// dynamic type is not modelled; a nil interface value is not modelled either). The function that
+// makes a "call" on (a field of) its receiver is translated state-passing.
+var extMethods2 = map[string]string{}
+
+func registerExtMethod2(pkg, typeMethod, kind string) {
+	extMethods2[modPath+"/"+pkg+"."+typeMethod] = kind
+}
+
+// extMethodsOf: the registered methods of a named type, sorted by name.
+func extMethodsOf(n *types.Named) []string {
+	if n.Obj().Pkg() == nil {
+		return nil
+	}
+	prefix := n.Obj().Pkg().Path() + "." + n.Obj().Name() + "."
+	out := []string{}
+	for k := range extMethods2 {
+		if strings.HasPrefix(k, prefix) && !strings.Contains(k[len(prefix):], ".") {
+			out = append(out, k[len(prefix):])
+		}
+	}
+	sort.Strings(out)
+	return out
+}
+
+func isContextType(ty types.Type) bool {
+	n, ok := ty.(*types.Named)
+	return ok && n.Obj().Pkg() != nil && n.Obj().Pkg().Path() == "context" && n.Obj().Name() == "Context"
+}
+
+// extIface: a named interface type with registered external methods.
+func extIface(ty types.Type) (*types.Named, bool) {
+	n, ok := ty.(*types.Named)
+	if !ok {
+		return nil, false
+	}
+	if _, isI := n.Underlying().(*types.Interface); !isI {
+		return nil, false
+	}
+	return n, len(extMethodsOf(n)) > 0
+}
+
 // registerIgnoredCall2: a function whose calls have no effect the models observe (logging). Its
 // operands are still translated (their panics are behaviour), the call itself is dropped.
 var ignoredCalls2 = map[string]bool{}
@@ -237,6 +287,8 @@ type recField struct {
 type recInfo struct {
 	mod, name string
 	fields    []recField
+	calls     []string // constructors of the call-log Inductive: "Name_call_m (a : T) ..."
+	iface     bool     // an external interface object (emitted after the sum interfaces)
 }
 
 type v2 struct {
@@ -279,6 +331,7 @@ type fctx struct {
 	ret  func(v string) string
 	next string
 	brk  string
+	brkK func() string // break inside a switch (not inside a loop nested in it): what follows the switch
 }
 
 type tr2 struct {
@@ -452,6 +505,9 @@ func (t *tr2) typeOK(ty types.Type) bool {
 	if si := sumOf(ty); si != nil {
 		return t.g.mods[modPath+"/"+si.pkg] != ""
 	}
+	if n, ok := extIface(ty); ok {
+		return t.g.mods[n.Obj().Pkg().Path()] != ""
+	}
 	if n, _, ok := namedStruct(ty); ok {
 		return t.g.mods[n.Obj().Pkg().Path()] != ""
 	}
@@ -469,6 +525,12 @@ func (t *tr2) record(n *types.Named) *recInfo {
 	mod := t.g.mods[tn.Pkg().Path()]
 	r := &recInfo{mod: mod, name: ident(tn.Name())}
 	t.g.recs[tn] = r
+	if _, isI := n.Underlying().(*types.Interface); isI {
+		r.iface = true
+		t.extMethodFields(r, n, mod)
+		t.g.recOf[mod] = append(t.g.recOf[mod], r)
+		return r
+	}
 	st := n.Underlying().(*types.Struct)
 	var exts []int
 	for i := 0; i < st.NumFields(); i++ {
@@ -517,6 +579,8 @@ func (t *tr2) record(n *types.Named) *recInfo {
 				t.record(nn)
 			} else if nn, isL := t.isStructList(f.Type()); isL {
 				t.record(nn)
+			} else if nn, isE := extIface(f.Type()); isE {
+				t.record(nn)
 			}
 		}
 		r.fields = append(r.fields, recField{goName: f.Name(), coq: r.name + "_" + f.Name(), ty: f.Type(), ok: ok})
@@ -528,6 +592,8 @@ func (t *tr2) record(n *types.Named) *recInfo {
 				dm = t.g.mods[nn.Obj().Pkg().Path()]
 			} else if si := sumOf(f.Type()); si != nil {
 				dm = t.g.mods[modPath+"/"+si.pkg]
+			} else if nn, isE := extIface(f.Type()); isE {
+				dm = t.g.mods[nn.Obj().Pkg().Path()]
 			}
 			if dm != "" && dm != mod {
 				if t.g.deps[mod] == nil {
@@ -556,8 +622,60 @@ func (t *tr2) record(n *types.Named) *recInfo {
 			r.fields = append(r.fields, recField{goName: f.goName + "#ret", coq: f.coq + "_ret", ty: sig.Results().At(0).Type(), ok: true})
 		}
 	}
+	t.extMethodFields(r, n, mod)
 	t.g.recOf[mod] = append(t.g.recOf[mod], r)
 	return r
+}
+
+// extMethodFields adds the pseudo-fields of the registered external methods of n: one answer
+// field per method with a result, and one ordered call log if some method is a "call".
+func (t *tr2) extMethodFields(r *recInfo, n *types.Named, mod string) {
+	ms := extMethodsOf(n)
+	anyCall := false
+	for _, m := range ms {
+		kind := extMethods2[n.Obj().Pkg().Path()+"."+n.Obj().Name()+"."+m]
+		obj, _, _ := types.LookupFieldOrMethod(types.NewPointer(n), true, n.Obj().Pkg(), m)
+		if _, isI := n.Underlying().(*types.Interface); isI {
+			obj, _, _ = types.LookupFieldOrMethod(n, true, n.Obj().Pkg(), m)
+		}
+		fn, _ := obj.(*types.Func)
+		if fn == nil {
+			t.errs = append(t.errs, fmt.Sprintf("external method %s.%s not found", n.Obj().Name(), m))
+			continue
+		}
+		sig := fn.Type().(*types.Signature)
+		if sig.Results().Len() > 1 || sig.Variadic() || (kind == "read" && sig.Results().Len() != 1) {
+			t.errs = append(t.errs, fmt.Sprintf("external method %s.%s: unsupported signature", n.Obj().Name(), m))
+			continue
+		}
+		t.noteTypeDeps(mod, sig)
+		if sig.Results().Len() == 1 {
+			if !t.typeOK(sig.Results().At(0).Type()) {
+				t.errs = append(t.errs, fmt.Sprintf("external method %s.%s: result type outside the subset", n.Obj().Name(), m))
+				continue
+			}
+			r.fields = append(r.fields, recField{goName: m + "#ret", coq: r.name + "_" + m + "_ret", ty: sig.Results().At(0).Type(), ok: true})
+		}
+		if kind == "call" {
+			anyCall = true
+			args := []string{}
+			for j := 0; j < sig.Params().Len(); j++ {
+				pt := sig.Params().At(j).Type()
+				if isContextType(pt) {
+					continue
+				}
+				if !t.typeOK(pt) {
+					t.errs = append(t.errs, fmt.Sprintf("external method %s.%s: parameter type %s outside the subset", n.Obj().Name(), m, pt))
+					continue
+				}
+				args = append(args, fmt.Sprintf("(a%d_ : %s)", j, t.ctypeIn(mod, pt)))
+			}
+			r.calls = append(r.calls, strings.TrimSpace(r.name+"_call_"+m+" "+strings.Join(args, " ")))
+		}
+	}
+	if anyCall {
+		r.fields = append(r.fields, recField{goName: "#calls", coq: r.name + "_calls", ok: true, cty: "(list " + r.name + "_call)", zero: "[]"})
+	}
 }
 
 func nil2(v *types.Var) ast.Node { return &ast.Ident{NamePos: v.Pos(), Name: v.Name()} }
@@ -659,6 +777,10 @@ func (t *tr2) ctype(n ast.Node, ty types.Type) string {
 		t.useSum(n, si, ty)
 		return t.q(t.g.mods[modPath+"/"+si.pkg], si.name)
 	}
+	if nn, ok := extIface(ty); ok && t.typeOK(ty) {
+		r := t.record(nn)
+		return t.q(r.mod, r.name)
+	}
 	if nn, _, ok := namedStruct(ty); ok && t.typeOK(ty) {
 		r := t.record(nn)
 		return t.q(r.mod, r.name)
@@ -715,6 +837,14 @@ func (t *tr2) zero(n ast.Node, ty types.Type) string {
 	if si := sumOf(ty); si != nil && t.typeOK(ty) {
 		t.useSum(n, si, ty)
 		return t.q(t.g.mods[modPath+"/"+si.pkg], si.name+"_nil")
+	}
+	if nn, ok := extIface(ty); ok && t.typeOK(ty) {
+		r := t.record(nn)
+		parts := []string{t.q(r.mod, "mk_"+r.name)}
+		for _, f := range r.fields {
+			parts = append(parts, t.fieldZero(n, f))
+		}
+		return "(" + strings.Join(parts, " ") + ")"
 	}
 	if nn, st, ok := namedStruct(ty); ok && t.typeOK(ty) {
 		r := t.record(nn)
@@ -905,10 +1035,17 @@ func runV2(ci *chainImporter, repo, outPath, manifestPath string) int {
 		mod := ps.t.mod
 		fmt.Fprintf(&out, "Module %s.\n\n", mod)
 		for _, r := range g.recOf[mod] {
-			out.WriteString(r.emit(ps.t))
+			if !r.iface {
+				out.WriteString(r.emit(ps.t))
+			}
 		}
 		for _, d := range g.sumDecl[mod] {
 			out.WriteString(d)
+		}
+		for _, r := range g.recOf[mod] {
+			if r.iface {
+				out.WriteString(r.emit(ps.t))
+			}
 		}
 		out.Write(bodies[mod].Bytes())
 		fmt.Fprintf(&out, "End %s.\n\n", mod)
@@ -945,6 +1082,13 @@ func (r *recInfo) emit(t *tr2) string {
 	}
 	if len(left) > 0 {
 		fmt.Fprintf(&b, "(* struct %s: fields outside the subset are left out: %s *)\n", r.name, strings.Join(left, ", "))
+	}
+	if len(r.calls) > 0 {
+		fmt.Fprintf(&b, "(* the ordered log of the calls %s makes into its environment *)\nInductive %s_call :=", r.name, r.name)
+		for _, c := range r.calls {
+			fmt.Fprintf(&b, "\n| %s", c)
+		}
+		b.WriteString(".\n")
 	}
 	fmt.Fprintf(&b, "Record %s := mk_%s { %s }.\n", r.name, r.name, strings.Join(flds, "; "))
 	for _, f := range r.fields {
